@@ -15,6 +15,8 @@
 (***************************************************************************)
 EXTENDS CasModel
 
+CONSTANT SplitBigRecords   \* FALSE = the code as it is now
+
 (***************************************************************************)
 (* State record                                                            *)
 (*  config   n (ops per segment the handle is opened with), bigk (keys     *)
@@ -41,8 +43,11 @@ DiskOf(s) == [settings |-> s.settings, stmp |-> s.stmp, snap |-> s.snap, snapTmp
 WithSeg(segs, id, items) == [i \in DOMAIN segs \cup {id} |-> IF i = id THEN items ELSE segs[i]]
 WithoutSeg(segs, id)     == [i \in DOMAIN segs \ {id} |-> segs[i]]
 
-IsBig(s, lop) == IF lop.op = "put" THEN lop.k \in s.bigk
-                 ELSE \E i \in 1..Len(lop.ks) : lop.ks[i] \in s.bigk
+\* A record larger than the 8 KiB buffer.  Before the repair of finding F1 (one write_all per record,
+\* "fix:" commit in /repo) such a record reached the file as two writes, header then payload; the
+\* split is kept as an option of the model (SplitBigRecords) so that the defect stays demonstrable.
+IsBig(s, lop) == SplitBigRecords /\ (IF lop.op = "put" THEN lop.k \in s.bigk
+                 ELSE \E i \in 1..Len(lop.ks) : lop.ks[i] \in s.bigk)
 
 (***************************************************************************)
 (* User-level operations and their first step.                             *)
